@@ -68,7 +68,9 @@ XalanDOMString::XalanDOMString(
 {
     assert(theString != 0);
 
-    if (*theString != 0)
+    // With an explicit count the units are taken as they are, a leading
+    // U+0000 included; without one the string ends at the first U+0000.
+    if (theCount != size_type(npos) ? theCount != 0 : *theString != 0)
     {
         append(theString, theCount);
     }
